@@ -14,10 +14,14 @@ from core import *
 NEEDS = ["DDE", "DDEProofs", "History", "HistoryProofs", "Corr"]
 VARPOOL = ["x", "z", "v", "u", "r", "a", "w", "s", "g", "m"]
 GUARDS = ["edge_delay_above_step", "delays_uniform"]
-# MODEL SWITCH for finding C10-F5: False = the code reads a per-node delay parameter at unit 0 (Impl = DDE.vimpl_eval);
-# True = /verif/fixes/proposed_fix_C10_F5.diff is applied: compilation raises PyRatesException when the entries of a delay
-# vector differ (Impl = DDE.vimpl_eval_checked, i.e. rejected exactly outside the guard, C10_vec_after_fix)
-VEC_NONUNIFORM_RAISES = False
+# MODEL SWITCH for finding C10-F5 (one line):
+#   "unit0"   the code as it is: a per-node delay parameter is read at unit 0 for every unit (Impl = DDE.vimpl_eval)
+#   "raises"  fixes/proposed_fix_C10_F5.diff applied: compilation raises PyRatesException when the entries of a delay vector
+#             differ (Impl = DDE.vimpl_eval_checked, rejected exactly outside the guard, C10_vec_after_fix)
+#   "perunit" fixes/proposed_fix_C10_F5_perunit.diff applied (default backend): one lookup per distinct delay value
+#             (Impl = DDE.vimpl_eval_perunit = Spec, C10_vec_after_perunit_fix); the former guard-violating class is decided normally
+VEC_DELAY_MODEL = "unit0"
+VEC_NONUNIFORM_RAISES = VEC_DELAY_MODEL == "raises"
 
 # ---------------------------------------------------------------------------------------------- impl side (worker)
 def _dec(q):
@@ -599,11 +603,11 @@ Definition tab (l : list (list Qc)) (p u : nat) : Qc := nth u (nth p l []) 0.
 Definition vpt := (Qc * list Qc * list (list Qc) * list (list Qc) * list (list Qc))%type.   (* t, y, parameter table, history polynomials, expected rows per unit *)
 Definition vcase := (model * list nat * nat * list nat * mode * list vpt)%type.               (* model, starts, units, ids of the delay parameters, mode, points *)
 Definition vokI (c : vcase) : bool := let '(m, st, n, dps, md, pts) := c in
-  forallb (fun p : vpt => let '(t, y, pt, hp, exp) := p in rows_eqb (vimpl_eval (polyhist hp) (lookup_nat st) (tab pt) (tab pt) n m md t y) exp) pts.
+  forallb (fun p : vpt => let '(t, y, pt, hp, exp) := p in rows_eqb (VIMPL (polyhist hp) (lookup_nat st) (tab pt) (tab pt) n m md t y) exp) pts.
 Definition vokS (c : vcase) : bool := let '(m, st, n, dps, md, pts) := c in
   forallb (fun p : vpt => let '(t, y, pt, hp, exp) := p in rows_eqb (vspec_eval (polyhist hp) (lookup_nat st) (tab pt) (tab pt) n m md t y) exp) pts.
 Definition vg (c : vcase) : bool := let '(m, st, n, dps, md, pts) := c in
-  forallb (fun p : vpt => let '(t, y, pt, hp, exp) := p in delays_uniform (map (fun i => nth i pt []) dps)) pts.
+  VGUARD || forallb (fun p : vpt => let '(t, y, pt, hp, exp) := p in delays_uniform (map (fun i => nth i pt []) dps)) pts.
 Definition rcase := (scheme * model * list nat * list Qc * Qc * nat * list Qc * list (list Qc))%type.
 Definition rokI (c : rcase) : bool :=
   let '(sc, m, pos, par, dt, n, y0, exp) := c in
@@ -612,6 +616,9 @@ Definition rokS (c : rcase) : bool :=
   let '(sc, m, pos, par, dt, n, y0, exp) := c in rows_eqb (run_spec sc (lookup_nat pos) (lookup_q par) (lookup_q par) m dt n y0) exp.
 Definition rg1 (c : rcase) : bool := true.
 """
+
+HEADER = HEADER.replace("VIMPL", "vimpl_eval_perunit" if VEC_DELAY_MODEL == "perunit" else "vimpl_eval").replace(
+    "VGUARD", "true" if VEC_DELAY_MODEL == "perunit" else "false")
 
 def c_dkey(d):
     return f"(DLit {cq(d[1])})" if d[0] == "lit" else f"(DPar {cnat(d[1])})"
@@ -853,7 +860,7 @@ def check(ctx):
         cases += [gen_run(ctx.rng) for _ in range(nr)] + [gen_long_run(ctx.rng) for _ in range(1 if ctx.tier == "quick" else 4)]
         cases += [gen_adapt(ctx.rng) for _ in range(6 if ctx.tier == "quick" else 60)]
         cases += [gen_vec(ctx.rng) for _ in range(16 if ctx.tier == "quick" else 200)]
-        if GUARDS[1] in findings or VEC_NONUNIFORM_RAISES:
+        if GUARDS[1] in findings or VEC_DELAY_MODEL != "unit0":
             cases += [gen_vec(ctx.rng, f5_class=True) for _ in range(6 if ctx.tier == "quick" else 60)]
         # guard-violating stream, built on purpose from the refuted witness, only for the listed finding
         if GUARDS[0] in findings:
